@@ -35,7 +35,7 @@ func init() {
 					cells = append(cells, "pair/"+pos+"/"+rel)
 				}
 			}
-			return append(cells, "allowed", "denied", "wire", "hook", "long-chain", "scale")
+			return append(cells, "allowed", "denied", "wire", "hook", "long-chain", "scale", "shared-lower-links")
 		},
 	})
 }
@@ -52,18 +52,23 @@ func c02Scenario(cmds []string) *chain.Scenario {
 
 func c02Run(w *mon.W, cmds []string, wire int) { c02RunH(w, cmds, wire, false) }
 
-func c02RunH(w *mon.W, cmds []string, wire int, hook bool) {
+func c02RunH(w *mon.W, cmds []string, wire int, hook bool) { c02RunR(w, cmds, wire, hook, nil, 0) }
+
+// c02RunR: with reuse != nil the first reuseN links are the very delegations (objects, CIDs) of
+// an earlier chain.
+func c02RunR(w *mon.W, cmds []string, wire int, hook bool, reuse *chain.Built, reuseN int) *chain.Built {
 	s := c02Scenario(cmds)
+	s.Reuse, s.ReuseN = reuse, reuseN
 	s.Wire = wire
 	b, err := s.Build(w.Rng)
 	if err != nil {
 		w.Inconclusive("C02 scenario could not be realised: " + err.Error())
-		return
+		return nil
 	}
 	want, why := s.CommandsOK()
 	if ok, pwhy := s.PrincipalsOK(); !ok {
 		w.Inconclusive("C02 generator bug: principals not conforming: " + pwhy)
-		return
+		return nil
 	}
 	e := allowed(b.Inv, b.Loader, hook)
 	w.Eval(1)
@@ -120,6 +125,7 @@ func c02RunH(w *mon.W, cmds []string, wire int, hook bool) {
 	if w.WantSample() && nontrivial && len(cmds) >= 3 {
 		w.Sample(map[string]any{"commands_inv_then_leaf_to_root": cmds, "allowed": e == nil, "model_allows": want, "wire": wire, "error": errStr(e)})
 	}
+	return b
 }
 
 func runC02(w *mon.W) {
@@ -229,5 +235,39 @@ func runC02(w *mon.W) {
 		}
 		c02RunH(w, cmds, w.Rng.IntN(5), w.Rng.IntN(3) == 0)
 		w.Cover("scale")
+	}
+	// chains that SHARE their lower links: a chain is checked (allowed or not), then a second
+	// chain made of the very same first k delegations (same objects, same CIDs) under other upper
+	// links - a root that does not cover what the shared delegation grants, or one that does.
+	// What was learnt about the shared delegations while checking the first chain may not carry
+	// over to the second.
+	for i := 0; i < w.Share(w.Pick(600, 8000)); i++ {
+		n := 2 + w.Rng.IntN(4)
+		first := make([]string, n+1)
+		cur := randCmd()
+		for k := 0; k <= n; k++ {
+			first[k] = cur
+			if sg := ref.CmdSegments(cur); len(sg) > 0 && w.Rng.IntN(2) == 0 {
+				cur = ref.CmdFromSegments(sg[:len(sg)-1])
+			}
+		}
+		b1 := c02RunR(w, first, 0, w.Rng.IntN(3) == 0, nil, 0)
+		if b1 == nil {
+			continue
+		}
+		keep := 1 + w.Rng.IntN(n-1) // links 0..keep-1 are shared
+		second := append([]string{}, first...)
+		for k := keep + 1; k <= n; k++ {
+			switch w.Rng.IntN(3) {
+			case 0:
+				second[k] = randCmd()
+			case 1:
+				second[k] = ref.CmdFromSegments(append(ref.CmdSegments(second[k-1]), "x"))
+			default:
+				second[k] = "/other/" + gen.Pick(w.Rng, segs)
+			}
+		}
+		c02RunR(w, second, 0, w.Rng.IntN(3) == 0, b1, keep)
+		w.Cover("shared-lower-links")
 	}
 }
